@@ -87,7 +87,7 @@ func walkLib(fs filesystem.FileSystem, dir string, depth int, budget *int) (*obs
 	if err != nil {
 		return n, fmt.Errorf("ReadDir(%q): %w", arg, err)
 	}
-	for _, e := range ents {
+	for idx, e := range ents {
 		*budget--
 		if *budget < 0 {
 			return n, fmt.Errorf("more than the expected number of entries")
@@ -119,6 +119,12 @@ func walkLib(fs filesystem.FileSystem, dir string, depth int, budget *int) (*obs
 			want := 1 << 20
 			if info != nil {
 				want = int(info.Size())
+			}
+			if info != nil && info.Size() == 0 && len(ents) > 1500 && idx%40 != 0 {
+				// a directory of thousands of empty files: every lookup by path costs a pass over the listing, so
+				// only every 40th file is also opened and read; the others are taken with the size the listing gives
+				n.Kids = append(n.Kids, &obsNode{Name: e.Name(), Hash: core.Hash([]byte{}), Size: 0})
+				continue
 			}
 			data, rerr, _ := readAllFS(fs, p, want)
 			if rerr != nil {
